@@ -188,6 +188,20 @@ CHECKS = {
         "on grids with all boundary mixes and on (multi)graphs with heterogeneous volumes.",
         "20-400 iterations per run; stochastic runs receive exact integer molecule numbers (redistribution "
         "mode, or 'none' with a state given in molecules)."),
+    "C10": (
+        "bounded-exhaustive enumeration of lifecycle call histories (length <= 5) + Hypothesis stateful "
+        "histories over two engine objects, executed in a sandboxed child process; lifecycle reference model "
+        "and solo-replay differential",
+        "Exploration, exhaustive on all grammar-respecting call sequences of length <= 5 over 10 concrete calls "
+        "on one engine: each is executed in a child process and compared call by call with a lifecycle "
+        "reference model (returns, sticky completion, records, progress, outputs bit-identical to the "
+        "clean-room trajectory, repeated output, multiple finalize, clean slate after re-setup); random "
+        "histories up to 40 calls over two engine objects of any kind (incl. sub-molecule and empty states, "
+        "run-to-completion loops) must return within a hang bound, must not crash, and every object must "
+        "return what it returns when driven alone in a fresh process.",
+        "Hang bound 30-60 s then re-run alone with 90-180 s. Known finding D14 (objects share one native "
+        "simulation) is re-demonstrated by a deterministic probe and reported as KNOWN-FINDING; histories "
+        "that operate an object after another one was set up are not generated."),
 }
 
 NOT_BUILT = "check not built yet in this working session (planned; DESIGN.md section 4)"
